@@ -99,13 +99,23 @@ def audit(prop):
     res = {}
     if not obl:
         return res, 'no obligations registered'
-    mod = 'PyCliffordModel.Properties.' + prop
-    ok, log = build([mod])
+    mods = sorted({o.get('module', 'PyCliffordModel.Properties.' + prop) for o in obl})
+    ok, log = build(mods)
     if not ok:
+        # find out which modules fail, so that theorems of the modules that still build stay discharged
+        okmods = set()
+        for m in mods:
+            ok1, log1 = build([m])
+            if ok1:
+                okmods.add(m)
         for o in obl:
-            res[o['theorem']] = dict(o, ok=False, axioms=[], why='module does not build')
-        return res, log
-    src = 'import %s\n' % mod + ''.join('#print axioms %s\n' % o['theorem'] for o in obl)
+            if o.get('module', 'PyCliffordModel.Properties.' + prop) not in okmods:
+                res[o['theorem']] = dict(o, ok=False, axioms=[], why='module does not build')
+        mods = sorted(okmods)
+        obl = [o for o in obl if o['theorem'] not in res]
+        if not obl:
+            return res, log
+    src = ''.join('import %s\n' % m for m in mods) + ''.join('#print axioms %s\n' % o['theorem'] for o in obl)
     tmp = os.path.join(LEAN, '.lake', 'audit_%s_%d.lean' % (prop, os.getpid()))
     open(tmp, 'w').write(src)
     try:
